@@ -25,9 +25,9 @@ func VH_C09_Add() {
 	s.Add(time.Duration(d)) // the real code
 	k := 0
 	type post struct {
-		p        *Item
-		st, en   int64
-		clamped  bool
+		p       *Item
+		st, en  int64
+		clamped bool
 	}
 	var surv []post
 	for _, c := range in {
